@@ -641,6 +641,15 @@ func (m *Monitors) c13(st *Step) []Finding {
 			}
 		}
 	}
+	// an invitation belongs to a channel: when the channel is destroyed it is void
+	// (otherwise it would admit its holder to a later channel of the same name)
+	for i := range Af.Sessions {
+		for _, c := range Af.Sessions[i].InvitedTo {
+			if Af.Channel(c) == nil {
+				add("invite:outlives-channel", fmt.Sprintf("session %v holds an invitation to %q, which does not exist", Af.Sessions[i].Id, c))
+			}
+		}
+	}
 	// replicated bans
 	if !mapEq(B.Config.Banned, Af.Config.Banned) && e.Type != int64(robust.Config) {
 		m.Stats["c13.glines"]++
